@@ -113,6 +113,38 @@ def run(rec):
                     vp = np.zeros([s.dim for s in psi.sites], dtype=complex)
                     vp[tuple(idx)] = 1.
                     check_state(rec, pp, vp, 'from_product_state', dict(inp, state=idx), check_schmidt=False)
+                # default permute=True, labels / ints / arrays mixed in one list: ints and arrays are given in the basis of conserve=None
+                # (entry k of the unsorted basis is entry site.perm^-1 ... i.e. sorted[j] = unsorted[perm[j]]), labels name a state directly
+                entries, locs_ = [], []
+                for s_ in psi.sites:
+                    kind = str(rng.choice(['label', 'int', 'array']))
+                    perm_ = np.asarray(s_.perm)
+                    if kind == 'label' and s_.state_labels:
+                        lab = str(rng.choice(sorted(s_.state_labels)))
+                        w_ = np.zeros(s_.dim, complex)
+                        w_[s_.state_labels[lab]] = 1.
+                        entries.append(lab)
+                    elif kind == 'int' or not s_.state_labels:
+                        k_ = int(rng.integers(0, s_.dim))
+                        u_ = np.zeros(s_.dim, complex)
+                        u_[k_] = 1.
+                        w_ = u_[perm_]
+                        entries.append(k_)
+                    else:
+                        k_ = int(rng.integers(0, s_.dim))
+                        u_ = np.zeros(s_.dim, complex)
+                        u_[k_] = np.exp(0.7j)
+                        w_ = u_[perm_]
+                        entries.append(u_.copy())
+                    locs_.append(w_)
+                inp_m = dict(inp, state=[e if isinstance(e, (str, int)) else 'array ' + str(np.round(e, 3).tolist()) for e in entries])
+                ok, pm = rec.guarded('from_product_state(mixed entries, permute=True):exception',
+                                     lambda: MPS.from_product_state(psi.sites, entries, 'finite', dtype=complex), inp_m)
+                if ok:
+                    vm = locs_[0]
+                    for w_ in locs_[1:]:
+                        vm = np.multiply.outer(vm, w_)
+                    check_state(rec, pm, vm, 'from_product_state(mixed entries, permute=True)', inp_m, check_schmidt=False)
     singlets(rec, rng)
     covering(rec, rng, quick)
     segments(rec, rng, quick)
